@@ -515,6 +515,14 @@ def work(payload, skip, report):
                 case = {"locale": loc, "number": n, "grouping_separator": sep, "decimal_point": dec}
                 if back != n:
                     acc.violation("formatnum_R_inverts", case, {"formatted": f, "reversed": back}, n)
+                # the decimal point is the locale's, with NOSEP and in locales without a group separator as well
+                if "." in n:
+                    ctx.start_page("Tt")
+                    ns = ctx.expand("{{formatnum:%s|NOSEP}}" % n)
+                    if ns != n.replace(".", dec):
+                        acc.violation("formatnum_NOSEP_localises_decimal_point", case, ns, n.replace(".", dec))
+                    if f.rsplit(dec, 1)[-1] != n.split(".")[1] or dec not in f:
+                        acc.violation("formatnum_localises_decimal_point", case, f, "..." + dec + n.split(".")[1])
                 ip = n.split(".")[0]
                 if len(ip) > 3 and sep and ctx.LOCALIZATION_DATA["grouping_method"] and sep not in f:
                     acc.violation("formatnum_groups_digits", case, f, "integer part grouped with %r" % sep)
